@@ -1,0 +1,38 @@
+//go:build verif
+// +build verif
+
+// Package verifhook marks the places where a goroutine leaves one critical section and has not yet
+// entered the next one. With the build tag `verif` every such place hands control to a handler
+// installed by the verification harness (a deterministic scheduler that decides which goroutine may
+// continue). No handler installed: nothing happens.
+package verifhook
+
+import (
+	"sync"
+	"sync/atomic"
+)
+
+// Handler is called by the goroutine that reached the site. mu is nil for Point and the mutex that
+// the goroutine is about to lock for PointLock.
+type Handler func(site string, mu *sync.Mutex)
+
+var handler atomic.Value
+
+// SetHandler installs the handler (nil removes it).
+func SetHandler(h Handler) {
+	handler.Store(h)
+}
+
+// Point marks a window between two critical sections.
+func Point(site string) {
+	if h, ok := handler.Load().(Handler); ok && h != nil {
+		h(site, nil)
+	}
+}
+
+// PointLock marks the window before mu is locked.
+func PointLock(site string, mu *sync.Mutex) {
+	if h, ok := handler.Load().(Handler); ok && h != nil {
+		h(site, mu)
+	}
+}
